@@ -216,6 +216,10 @@ func runPair(r *vh.Rng, directed int) *pairScen {
 	} else if directed > 10 && r.Chance(35) {
 		rounds = 1 + r.Intn(3)
 	}
+	// racing mode (PairArb.v): in a quarter of the random runs a timer may expire at any moment
+	// at which the peer has taken what the expiring side wrote and at most one frame is in flight
+	// towards it - also while the user has not acted and while that frame is under way
+	racing := directed > 10 && rounds == 0 && r.Chance(25)
 	sc := &pairScen{cfg: cfg}
 	trusted := false
 	var qcs, qsc []wireItem
@@ -340,6 +344,17 @@ func runPair(r *vh.Rng, directed int) *pairScen {
 		}
 		if len(qsc) > 0 {
 			en = append(en, "LDeliverSC", "LDeliverSC")
+		}
+		if racing && r.Chance(12) {
+			cs, ss := cl.conn.VerifSnapshot(), sv.conn.VerifSnapshot()
+			if cs.TimerRunning && len(qcs) == 0 && len(qsc) <= 1 && r.Bool() {
+				exec("LTimeoutC")
+				continue
+			}
+			if ss.TimerRunning && len(qsc) == 0 && len(qcs) <= 1 {
+				exec("LTimeoutS")
+				continue
+			}
 		}
 		userCan := !userDone && (cfg.approves || cfg.cancels)
 		if userCan && rounds > 0 && len(en) == 0 {
